@@ -5,6 +5,7 @@ import (
 	"go/token"
 	"go/types"
 	"sort"
+	"strconv"
 
 	"golang.org/x/tools/go/ssa"
 
@@ -550,6 +551,7 @@ func C17(ctx *core.Ctx, r *core.Report) {
 	c17SortSearch(ctx, r)
 	// --- reflect-compare-kinds -----------------------------------------------
 	c17ReflectCompare(ctx, r)
+	c17KeyMatchConjunction(ctx, r)
 }
 
 // c17TupleBound: in val.CompareVals every index into the second tuple must be
@@ -737,5 +739,152 @@ func c17ReflectCompare(ctx *core.Ctx, r *core.Report) {
 			r.Ob("reflect-compare-kinds", spec+"/"+fam.name, ctx.Pos(fn.Pos()), ok,
 				"no branch for "+fam.name+" map-key kinds: ordering such keys panics or is undefined")
 		}
+	}
+}
+
+// innerLoopOf returns the blocks of the innermost natural loop containing b
+// and its header, or nil.
+func innerLoopOf(b *ssa.BasicBlock) (map[*ssa.BasicBlock]bool, *ssa.BasicBlock) {
+	var best map[*ssa.BasicBlock]bool
+	var bestH *ssa.BasicBlock
+	for _, h := range b.Parent().Blocks {
+		if !h.Dominates(b) {
+			continue
+		}
+		body := map[*ssa.BasicBlock]bool{}
+		for _, p := range h.Preds {
+			if h.Dominates(p) { // back edge p→h
+				body[h] = true
+				var up func(x *ssa.BasicBlock)
+				up = func(x *ssa.BasicBlock) {
+					if body[x] {
+						return
+					}
+					body[x] = true
+					for _, q := range x.Preds {
+						up(q)
+					}
+				}
+				up(p)
+			}
+		}
+		if !body[b] {
+			continue
+		}
+		if best == nil || len(body) < len(best) {
+			best, bestH = body, h
+		}
+	}
+	return best, bestH
+}
+
+// c17KeyMatchConjunction: the linear key search of slice-backed lists
+// (sliceAsList.findByKey) answers "found" only for an entry all of whose key
+// leaves equal the requested key: the comparison of one key leaf sits in a loop
+// over the key leaves, a mismatch leaves that loop (it does not move on to the
+// next key leaf), and the found-return is reached only on the equal side of the
+// comparison and on the last key leaf.
+func c17KeyMatchConjunction(ctx *core.Ctx, r *core.Report) {
+	f := ctx.Method("nodeutil", "sliceAsList", "findByKey")
+	if f == nil {
+		r.Fatalf("anchor nodeutil.sliceAsList.findByKey not found")
+		return
+	}
+	key := "nodeutil.sliceAsList.findByKey"
+	// the comparison of two Value() results
+	isValueCall := func(v ssa.Value) bool {
+		c, ok := v.(*ssa.Call)
+		if !ok {
+			return false
+		}
+		m := core.IfaceMethod(c)
+		return m != nil && m.Name() == "Value"
+	}
+	var cmps []*ssa.BinOp
+	core.Instrs(f, func(_ *ssa.BasicBlock, in ssa.Instruction) {
+		if b, ok := in.(*ssa.BinOp); ok && (b.Op == token.NEQ || b.Op == token.EQL) && isValueCall(b.X) && isValueCall(b.Y) {
+			cmps = append(cmps, b)
+		}
+	})
+	var found []*ssa.Return
+	for _, ret := range core.Returns(f) {
+		ops := core.RetOperands(ret)
+		if len(ops) == 3 {
+			if _, isConst := ops[0].(*ssa.Const); !isConst && core.IsNilConst(ops[2]) {
+				if _, isParamOrPhi := ops[0].(*ssa.Phi); isParamOrPhi || true {
+					found = append(found, ret)
+				}
+			}
+		}
+	}
+	// the not-found return also has a non-constant first operand when written `return notfound, …`
+	var foundRets []*ssa.Return
+	for _, ret := range found {
+		ops := core.RetOperands(ret)
+		if c, ok := core.ConstInt(ops[0]); ok && c == -1 {
+			continue
+		}
+		foundRets = append(foundRets, ret)
+	}
+	if len(cmps) != 1 || len(foundRets) == 0 {
+		r.Ob("key-match-conjunction", key+"/shape", ctx.Pos(f.Pos()), false,
+			fmt.Sprintf("expected one comparison of a candidate key leaf's Value() with the requested one and a found-return; saw %d comparison(s), %d found-return(s): the rule cannot show that found means all key leaves equal", len(cmps), len(foundRets)))
+		return
+	}
+	cmp := cmps[0]
+	body, header := innerLoopOf(cmp.Block())
+	if body == nil {
+		r.Ob("key-match-conjunction", key+"/loop", ctx.Pos(cmp.Pos()), false, "the key leaf comparison is not in a loop over the key leaves")
+		return
+	}
+	// mismatch leaves the loop
+	var ifi *ssa.If
+	for _, ref := range *cmp.Referrers() {
+		if i, ok := ref.(*ssa.If); ok {
+			ifi = i
+		}
+	}
+	if ifi == nil {
+		r.Ob("key-match-conjunction", key+"/mismatch-leaves-loop", ctx.Pos(cmp.Pos()), false,
+			"the result of the key leaf comparison is not branched on where it is computed (it is accumulated instead): the rule cannot show that a mismatch on an earlier key leaf excludes the entry")
+		return
+	}
+	mismatch := ifi.Block().Succs[0]
+	if cmp.Op == token.EQL {
+		mismatch = ifi.Block().Succs[1]
+	}
+	r.Ob("key-match-conjunction", key+"/mismatch-leaves-loop", ctx.Pos(ifi.Pos()), !body[mismatch],
+		"after a key leaf that differs the search goes on to the next key leaf of the same entry: an entry whose last key leaf matches is returned although an earlier one differs")
+	// found only on the equal side and on the last key leaf
+	for i, ret := range foundRets {
+		k := key + "/found"
+		if i > 0 {
+			k += "#" + strconv.Itoa(i+1)
+		}
+		equalSide, lastKey := false, false
+		for _, pc := range core.PathConds(ret.Block()) {
+			if pc.V == ssa.Value(cmp) && pc.True == (cmp.Op == token.EQL) {
+				equalSide = true
+			}
+			if b, ok := pc.V.(*ssa.BinOp); ok && b.Op == token.EQL && pc.True {
+				for _, side := range []ssa.Value{b.X, b.Y} {
+					if ph, ok := side.(*ssa.Phi); ok && ph.Block() == header {
+						lastKey = true
+					}
+					if bo, ok := side.(*ssa.BinOp); ok && bo.Op == token.ADD { // rotated range loops: index = phi+1
+						if ph, ok := bo.X.(*ssa.Phi); ok && ph.Block() == header {
+							lastKey = true
+						}
+					}
+				}
+			}
+		}
+		msg := ""
+		if !equalSide {
+			msg = "the found-return is not on the equal side of the key leaf comparison"
+		} else if !lastKey {
+			msg = "the found-return is not conditioned on having reached the last key leaf: an entry matching only the first key leaf is returned"
+		}
+		r.Ob("key-match-conjunction", k, ctx.Pos(ret.Pos()), msg == "", msg)
 	}
 }
